@@ -74,9 +74,9 @@ Proof. reflexivity. Qed.
 Lemma visit_SIf : forall pk nd tc body orelse st,
   visit_stmt pk nd (SIf tc body orelse) st =
   (let prev := guarded st in
-   let st1 := if is_level pk && tc then set_guard st true else st in
+   let st1 := if is_level pk && tc_pos tc then set_guard st true else st in
    let st2 := visit_list PIf None None body st1 in
-   set_guard (visit_list PIf (Some prev) None orelse st2) prev).
+   set_guard (visit_list PIf (Some (gelse prev pk tc)) None orelse st2) prev).
 Proof. reflexivity. Qed.
 
 Lemma visit_SBlock : forall pk nd ch st, visit_stmt pk nd (SBlock ch) st = visit_list POther None None ch st.
@@ -115,8 +115,8 @@ Proof. reflexivity. Qed.
 
 Lemma sem_SIf : forall g pk nd tc body orelse own up,
   sem_stmt g pk nd (SIf tc body orelse) own up =
-  (let a := sem_list (g || (is_level pk && tc)) PIf None body own up in
-   let b := sem_list g PIf None orelse (l_own a) (l_up a) in
+  (let a := sem_list (gbody g pk tc) PIf None body own up in
+   let b := sem_list (gelse g pk tc) PIf None orelse (l_own a) (l_up a) in
    mkL (l_own b) (l_up b) (l_events a ++ l_events b) (first_err (l_err a) (l_err b))).
 Proof. reflexivity. Qed.
 Lemma sem_SBlock : forall g pk nd ch own up, sem_stmt g pk nd (SBlock ch) own up = sem_list g POther None ch own up.
@@ -199,6 +199,15 @@ Proof.
   simpl in *. eapply same_shape_trans; [|exact IH]. unfold same_shape; simpl; auto.
 Qed.
 
+Lemma shape_import_all : forall g an f, same_shape f (import_all g an f).
+Proof. intros. unfold import_all. destruct (fkind f); auto with c01. destruct (String.eqb an "__all__" && negb g); auto with c01. Qed.
+Lemma members_import_all : forall g an f, fmembers (import_all g an f) = fmembers f.
+Proof. intros. unfold import_all. destruct (fkind f); auto. destruct (String.eqb an "__all__" && negb g); auto. Qed.
+Lemma path_import_all : forall g an f, fpath (import_all g an f) = fpath f.
+Proof. intros. destruct (shape_import_all g an f) as [_ [_ P]]. exact P. Qed.
+Lemma kind_import_all : forall g an f, fkind (import_all g an f) = fkind f.
+Proof. intros. destruct (shape_import_all g an f) as [K _]. exact K. Qed.
+
 Lemma shape_op_importfrom : forall g ln eln names f, same_shape f (fst (op_importfrom g ln eln names f)).
 Proof.
   induction names as [|x r IH]; intros; simpl; auto with c01.
@@ -207,7 +216,8 @@ Proof.
     + eapply same_shape_trans; [|apply IH]. unfold same_shape; simpl; auto.
     + match goal with |- context [op_importfrom g ln eln r ?f2] =>
         specialize (IH f2); destruct (op_importfrom g ln eln r f2) as [f3 evs] end.
-      simpl in *. eapply same_shape_trans; [|exact IH]. unfold same_shape; simpl; auto.
+      simpl in *. eapply same_shape_trans; [|exact IH]. eapply same_shape_trans; [|apply shape_import_all].
+      unfold same_shape; simpl; auto.
   - destruct (String.eqb ap (dot (fpath f) an)); auto.
     match goal with |- context [op_importfrom g ln eln r ?f2] =>
       specialize (IH f2); destruct (op_importfrom g ln eln r f2) as [f3 evs] end.
@@ -322,16 +332,16 @@ Proof.
     split; [exact S|]. split; [apply same_shape_refl|]. intros _. split; auto.
   - (* SIf *)
     rewrite sem_SIf. cbv zeta.
-    destruct (sem_facts_list_of _ H (g || (is_level pk && tc)) PIf None own up) as [A1 [A2 A3]].
-    set (a := sem_list (g || (is_level pk && tc)) PIf None body own up) in *.
-    destruct (sem_facts_list_of _ H0 g PIf None (l_own a) (l_up a)) as [B1 [B2 B3]].
-    set (b := sem_list g PIf None orelse (l_own a) (l_up a)) in *.
+    destruct (sem_facts_list_of _ H (gbody g pk tc) PIf None own up) as [A1 [A2 A3]].
+    set (a := sem_list (gbody g pk tc) PIf None body own up) in *.
+    destruct (sem_facts_list_of _ H0 (gelse g pk tc) PIf None (l_own a) (l_up a)) as [B1 [B2 B3]].
+    set (b := sem_list (gelse g pk tc) PIf None orelse (l_own a) (l_up a)) in *.
     cbn beta iota delta [l_own l_up l_events l_err fst snd]. split; [eapply same_shape_trans; eauto|]. split; [eapply same_shape_trans; eauto|].
     intros K. destruct (A3 K) as [A4 A5].
     assert (K' : fkind (l_own a) <> InInit) by (destruct A1 as [E _]; rewrite E; exact K).
     destruct (B3 K') as [B4 B5]. split; [congruence|].
     intros up'. rewrite sem_SIf. cbv zeta. rewrite A5. cbn beta iota delta [l_own l_up l_events l_err fst snd].
-    destruct (sem_facts_list_of _ H0 g PIf None (l_own a) up') as [_ [_ C3]]. destruct (C3 K') as [C4 C5].
+    destruct (sem_facts_list_of _ H0 (gelse g pk tc) PIf None (l_own a) up') as [_ [_ C3]]. destruct (C3 K') as [C4 C5].
     pose proof (B5 up') as E1. cbn beta in E1. rewrite E1. cbn beta iota delta [l_own l_up l_events l_err fst snd]. reflexivity.
   - (* SBlock *) rewrite sem_SBlock.
     destruct (sem_facts_list_of _ H g POther None own up) as [A1 [A2 A3]].
@@ -446,17 +456,17 @@ Proof.
     cbn [stack guarded events err l_own l_up l_events l_err]. rewrite first_err_none_r. reflexivity.
   - (* SIf *)
     rewrite visit_SIf, sem_SIf. cbv zeta. cbn [guarded].
-    set (st1 := if is_level pk && tc then set_guard (mkSt (own :: up :: rest) g evs er) true else mkSt (own :: up :: rest) g evs er).
-    assert (S1 : stack st1 = own :: up :: rest) by (unfold st1; destruct (is_level pk && tc); reflexivity).
-    assert (G1 : guarded st1 = g || (is_level pk && tc)) by (unfold st1; destruct (is_level pk && tc), g; reflexivity).
-    assert (E1 : events st1 = evs) by (unfold st1; destruct (is_level pk && tc); reflexivity).
-    assert (R1 : err st1 = er) by (unfold st1; destruct (is_level pk && tc); reflexivity).
+    set (st1 := if is_level pk && tc_pos tc then set_guard (mkSt (own :: up :: rest) g evs er) true else mkSt (own :: up :: rest) g evs er).
+    assert (S1 : stack st1 = own :: up :: rest) by (unfold st1; destruct (is_level pk && tc_pos tc); reflexivity).
+    assert (G1 : guarded st1 = gbody g pk tc) by (unfold st1, gbody; destruct (is_level pk && tc_pos tc), g; reflexivity).
+    assert (E1 : events st1 = evs) by (unfold st1; destruct (is_level pk && tc_pos tc); reflexivity).
+    assert (R1 : err st1 = er) by (unfold st1; destruct (is_level pk && tc_pos tc); reflexivity).
     rewrite (ref_list_of _ H PIf None None st1 own up rest S1).
     unfold list_guard. rewrite G1.
-    set (a := sem_list (g || (is_level pk && tc)) PIf None body own up).
-    match goal with |- context [visit_list PIf (Some g) None orelse ?s2] => set (st2 := s2) end.
+    set (a := sem_list (gbody g pk tc) PIf None body own up).
+    match goal with |- context [visit_list PIf (Some (gelse g pk tc)) None orelse ?s2] => set (st2 := s2) end.
     assert (S2 : stack st2 = l_own a :: l_up a :: rest) by reflexivity.
-    rewrite (ref_list_of _ H0 PIf (Some g) None st2 (l_own a) (l_up a) rest S2).
+    rewrite (ref_list_of _ H0 PIf (Some (gelse g pk tc)) None st2 (l_own a) (l_up a) rest S2).
     unfold list_guard, lift, set_guard, st2, lift. cbn [stack guarded events err l_own l_up l_events l_err].
     rewrite E1, R1, app_assoc, first_err_assoc. reflexivity.
   - (* SBlock *)
@@ -598,7 +608,8 @@ Proof.
     + apply IH. exact H.
     + match goal with |- context [op_importfrom g ln eln r ?f2] =>
         specialize (IH f2 p open); destruct (op_importfrom g ln eln r f2) as [f3 evs] end.
-      cbn [snd fst] in *. unfold brk in *. cbn [check_events]. rewrite (parent_ok_frame f p open H). apply IH. exact H.
+      cbn [snd fst] in *. unfold brk in *. cbn [check_events]. rewrite (parent_ok_frame f p open H). apply IH.
+      rewrite kind_import_all, path_import_all. exact H.
   - destruct (String.eqb ap (dot (fpath f) an)); auto.
     match goal with |- context [op_importfrom g ln eln r ?f2] =>
       specialize (IH f2 p open); destruct (op_importfrom g ln eln r f2) as [f3 evs] end.
@@ -677,7 +688,7 @@ Proof.
   - simpl sem_stmt. pose proof (brk_op_importfrom g ln eln names own (level_path own up) open) as B.
     destruct (op_importfrom g ln eln names own). cbn [l_events]. apply B. intros. eapply level_path_own; eauto.
   - rewrite sem_SIf. cbv zeta. cbn [l_events]. apply brk_app; [apply (brk_list_of _ H)|].
-    destruct (sem_list_facts body (g || (is_level pk && tc)) PIf None own up) as [A1 [A2 _]].
+    destruct (sem_list_facts body (gbody g pk tc) PIf None own up) as [A1 [A2 _]].
     rewrite <- (level_path_shape own up _ _ A1 A2). apply (brk_list_of _ H0).
   - rewrite sem_SBlock. apply (brk_list_of _ H).
   - rewrite sem_SSub. apply (brk_list_of _ H).
@@ -750,7 +761,7 @@ Qed.
 Lemma base_property_member : forall ms n ds fn, base_property ms n ds = Some fn -> has_key n ms = true.
 Proof.
   induction ds as [|d r IH]; simpl; intros; [discriminate|].
-  destruct d as [p|bs f0]; [eauto|].
+  destruct d as [p|bs f0|hh rr]; [eauto| |eauto].
   destruct ((String.eqb f0 "setter" || String.eqb f0 "deleter") && String.eqb bs n && member_is_property ms n) eqn:E; [|eauto].
   apply andb_prop in E. destruct E as [_ E]. unfold member_is_property in E. unfold has_key.
   destruct (lookup n ms); [reflexivity|discriminate].
@@ -821,7 +832,7 @@ Proof.
     + rewrite IH. reflexivity.
     + match goal with |- context [op_importfrom g ln eln r ?f2] =>
         specialize (IH f2); destruct (op_importfrom g ln eln r f2) as [f3 evs] end.
-      simpl fst in *. rewrite IH. cbn [fmembers set_members set_imports fpath]. rewrite keys_assign_extend. reflexivity.
+      simpl fst in *. rewrite IH, path_import_all, members_import_all. cbn [fmembers set_members set_imports fpath]. rewrite keys_assign_extend. reflexivity.
   - destruct (String.eqb ap (dot (fpath f) an)).
     + apply IH.
     + match goal with |- context [op_importfrom g ln eln r ?f2] =>
@@ -843,7 +854,7 @@ Lemma lbl_eq : forall k path l g pk,
 Proof. induction l; intros; simpl; [reflexivity|]. rewrite IHl. reflexivity. Qed.
 Lemma lb_SIf : forall k path g pk tc body orelse,
   level_bindings k path g pk (SIf tc body orelse) =
-  level_bindings_list k path (g || (is_level pk && tc)) PIf body ++ level_bindings_list k path g PIf orelse.
+  level_bindings_list k path (gbody g pk tc) PIf body ++ level_bindings_list k path (gelse g pk tc) PIf orelse.
 Proof. intros. simpl. rewrite !lbl_eq. reflexivity. Qed.
 Lemma lb_SBlock : forall k path g pk ch, level_bindings k path g pk (SBlock ch) = level_bindings_list k path g POther ch.
 Proof. intros. simpl. rewrite !lbl_eq. reflexivity. Qed.
@@ -852,7 +863,7 @@ Lemma lb_SSub : forall k path g pk h body,
 Proof. intros. simpl. rewrite !lbl_eq. reflexivity. Qed.
 Lemma ib_SIf : forall g pk tc body orelse,
   init_bindings g pk (SIf tc body orelse) =
-  init_bindings_list (g || (is_level pk && tc)) PIf body ++ init_bindings_list g PIf orelse.
+  init_bindings_list (gbody g pk tc) PIf body ++ init_bindings_list (gelse g pk tc) PIf orelse.
 Proof. reflexivity. Qed.
 Lemma ib_SBlock : forall g pk ch, init_bindings g pk (SBlock ch) = init_bindings_list g POther ch.
 Proof. reflexivity. Qed.
@@ -1002,11 +1013,11 @@ Proof.
     unfold receiver, level_names. rewrite Sa. destruct (fkind own); try exact Ka. reflexivity.
   - (* SIf *)
     rewrite sem_SIf. cbv zeta. cbn [l_own l_up].
-    destruct (sem_list_facts body (g || (is_level pk && tc)) PIf None own up) as [A1 _].
-    set (a := sem_list (g || (is_level pk && tc)) PIf None body own up) in *.
-    pose proof (names_list_of _ H0 g PIf None (l_own a) (l_up a)) as B. cbv zeta in B. rewrite B.
-    pose proof (names_list_of _ H (g || (is_level pk && tc)) PIf None own up) as C. cbv zeta in C. fold a in C. rewrite C.
-    rewrite (level_names_shape own (l_own a) g PIf orelse A1), <- extend_app. f_equal.
+    destruct (sem_list_facts body (gbody g pk tc) PIf None own up) as [A1 _].
+    set (a := sem_list (gbody g pk tc) PIf None body own up) in *.
+    pose proof (names_list_of _ H0 (gelse g pk tc) PIf None (l_own a) (l_up a)) as B. cbv zeta in B. rewrite B.
+    pose proof (names_list_of _ H (gbody g pk tc) PIf None own up) as C. cbv zeta in C. fold a in C. rewrite C.
+    rewrite (level_names_shape own (l_own a) (gelse g pk tc) PIf orelse A1), <- extend_app. f_equal.
     unfold level_names, level_names_list. destruct (fkind own); rewrite ?lb_SIf, ?ib_SIf, map_app; reflexivity.
   - (* SBlock *)
     rewrite sem_SBlock. pose proof (names_list_of _ H g POther None own up) as B. cbv zeta in B. rewrite B.
@@ -1095,7 +1106,7 @@ Qed.
 Lemma no_accessor_base : forall ms n ds, existsb is_accessor ds = false -> base_property ms n ds = None.
 Proof.
   induction ds as [|d r IH]; simpl; intros; auto.
-  destruct d; simpl in H; [auto|discriminate].
+  destruct d; simpl in H; [auto|discriminate|auto].
 Qed.
 
 Definition def_bindings (g : bool) (ln dln : nat) (name : string) (a : bool) (ds : list deco) : list binding :=
@@ -1169,7 +1180,8 @@ Proof.
     + match goal with |- context [op_importfrom g ln eln r ?f2] =>
         specialize (IH f2); destruct (op_importfrom g ln eln r f2) as [f3 evs] end.
       simpl fst in *. change (?b :: importfrom_bindings g ln (fpath f) r) with ([b] ++ importfrom_bindings g ln (fpath f) r).
-      rewrite survivor_app. apply IH. cbn [fmembers set_members set_imports]. apply rel_set; auto. discriminate.
+      rewrite survivor_app. rewrite path_import_all in IH. apply IH. rewrite members_import_all.
+      cbn [fmembers set_members set_imports]. apply rel_set; auto. discriminate.
   - destruct (String.eqb ap (dot (fpath f) an)).
     + apply IH. exact H.
     + match goal with |- context [op_importfrom g ln eln r ?f2] =>
@@ -1317,13 +1329,13 @@ Proof.
   - (* SIf *)
     rewrite ha_SIf in HA. apply orb_false_elim in HA. destruct HA as [HA1 HA2].
     rewrite sem_SIf. cbv zeta. cbn [l_own l_up].
-    destruct (sem_list_facts body (g || (is_level pk && tc)) PIf None own up) as [A1 _].
-    pose proof (surv_list_of _ H n (g || (is_level pk && tc)) PIf None own up c HA1 HR) as C. cbv zeta in C.
-    set (a := sem_list (g || (is_level pk && tc)) PIf None body own up) in *.
-    pose proof (surv_list_of _ H0 n g PIf None (l_own a) (l_up a) _ HA2 C) as B. cbv zeta in B.
-    rewrite (level_binds_shape own (l_own a) g PIf orelse A1) in B.
+    destruct (sem_list_facts body (gbody g pk tc) PIf None own up) as [A1 _].
+    pose proof (surv_list_of _ H n (gbody g pk tc) PIf None own up c HA1 HR) as C. cbv zeta in C.
+    set (a := sem_list (gbody g pk tc) PIf None body own up) in *.
+    pose proof (surv_list_of _ H0 n (gelse g pk tc) PIf None (l_own a) (l_up a) _ HA2 C) as B. cbv zeta in B.
+    rewrite (level_binds_shape own (l_own a) (gelse g pk tc) PIf orelse A1) in B.
     assert (E : level_binds own g pk (SIf tc body orelse) =
-                level_binds_list own (g || (is_level pk && tc)) PIf body ++ level_binds_list own g PIf orelse).
+                level_binds_list own (gbody g pk tc) PIf body ++ level_binds_list own (gelse g pk tc) PIf orelse).
     { unfold level_binds, level_binds_list. destruct (fkind own); rewrite ?lb_SIf, ?ib_SIf; reflexivity. }
     rewrite E, survivor_app. exact B.
   - (* SBlock *)
@@ -1380,7 +1392,7 @@ Definition member_labels (mname : string) (body : list stmt) (n : string) : opti
   match run_visit mname body with Ok r => option_map (fun o => ilabels (oinfo o)) (lookup n (r_members r)) | Err _ => None end.
 
 (* was F2:  if c: x = 1 / else: 'string'   -- the string of the else branch is not the docstring of x *)
-Definition doc_else_witness : list stmt := [SIf false [SAssign 2 2 [TName "x"] []] [SDoc 4 4]].
+Definition doc_else_witness : list stmt := [SIf TCNone [SAssign 2 2 [TName "x"] []] [SDoc 4 4]].
 (* was F3:  x = 1 / 'doc of x' / async def y(): ... / x = y = 2   -- x keeps its docstring, y gets its own labels only *)
 Definition chained_leak_witness : list stmt :=
   [SAssign 1 1 [TName "x"] []; SDoc 2 2; SDef 3 3 3 "y" true [] [SOther]; SAssign 4 4 [TName "x"; TName "y"] []].
@@ -1405,10 +1417,10 @@ Proof. eexists. split; vm_compute; reflexivity. Qed.
 Definition sample_module : list stmt :=
   [SDoc 1 1;
    SImport 2 2 [("os", "os")];
-   SIf true [SImportFrom 4 4 [IName "T" "typing.T"]] [SAssign 6 6 [TName "x"] []];
+   SIf TCPos [SImportFrom 4 4 [IName "T" "typing.T"]] [SAssign 6 6 [TName "x"] []];
    SCls 8 7 14 "C" [DPath "dataclasses.dataclass"]
      [SDoc 9 9; SAssign 10 10 [TName "x"] []; SDoc 11 11;
-      SDef 12 12 14 "__init__" false [] [SAssign 13 13 [TSelf "y"] []; SIf false [SAssign 14 14 [TSelf "x"] []] []]];
+      SDef 12 12 14 "__init__" false [] [SAssign 13 13 [TSelf "y"] []; SIf TCNone [SAssign 14 14 [TSelf "x"] []] []]];
    SDef 15 15 15 "x" false [] [SOther];
    SBlock [SAssign 17 17 [TName "x"] []; SSub true [SAssign 19 19 [TName "x"] []]]].
 Example sample_module_ok :
